@@ -66,7 +66,7 @@ ASSUMPTIONS = [
     "median: kernel sizes odd (enumerated set below), array values and constant pad values in {0,1}, every pad width >= (k-1)/2 on its axis (otherwise jax.scipy.signal.convolve zero-fills beyond the configured padding), padded extent >= kernel size",
     "median: padding modes 'constant' and 'edge' (the modes of the repository's own configurations); pad widths are concrete and enumerated: uniform 1, 2, 3, 10 and a mixed pattern; kernels (1,1,1),(3,1,1),(1,3,1),(1,1,3),(3,3,1),(3,3,3),(5,3,1),(1,5,5),(5,5,5) (thorough adds (7,7,7),(3,5,7))",
     "jax.scipy.signal.convolve(mode='same', method='direct') = textbook zero-filled convolution (vc/signal.py; cross-checked against real JAX inside this check); jnp.round = some integer within 1/2 (no tie rule assumed)",
-    "pillars: isotropic materials; column heights L <= 4 (thorough 5) and M <= 3 materials (thorough 4) for the symbolic nearest_index proof, L <= 5 (thorough 6), M <= 4 for the allowed-column enumeration; every background index and both single_polymer_columns settings; axes 0,1,2; both distance metrics",
+    "pillars: isotropic materials; column heights L <= 4 (thorough 5) and M <= 3 materials (thorough 4) for the symbolic nearest_index proof (euclidean metric only for tables of at most 16 allowed columns), L <= 5 (thorough 6), M <= 4 for the allowed-column enumeration; every background index and both single_polymer_columns settings; axes 0,1,2; both distance metrics",
     "euclidean metric: sqrt is an uninterpreted strictly increasing function on non-negative reals",
 ]
 MIN_OBLIGATIONS = {"quick": 400, "thorough": 400}
@@ -475,6 +475,12 @@ def _make_pillar_module(L, M, bg_name, single, axis, metric, shape):
 
     dz = importlib.import_module(DZ_MOD)
     ut = importlib.import_module(UT_MOD)
+    try:
+        from loguru import logger
+
+        logger.disable("fdtdx")
+    except Exception:  # noqa: BLE001
+        pass
     mats, names, perms = _materials(M)
     mod = dz.PillarDiscretization(axis=axis, single_polymer_columns=single, distance_metric=metric, background_material=bg_name)
     saved = (ut.jnp, ut.jax, dz.jnp, dz.jax)
@@ -741,49 +747,60 @@ KERNELS_THOROUGH = KERNELS_QUICK + [(7, 7, 7), (3, 5, 7)]
 MIXED_W = (1, 2, 0, 3, 2, 1)
 
 
+def _grouped(parts):
+    """several configurations in one task (amortises process start-up); obligation names are prefixed.
+    Every configuration creates its own fresh symbols, so the accumulated assumptions stay independent;
+    each sub-body has its own vacuity guard (c.cover)."""
+
+    def body(c, inp):
+        for pre, sub in parts:
+            orig_prove, orig_cover = c.prove, c.cover
+
+            def pr(name, goal, *a, _o=orig_prove, _p=pre, **kw):
+                return _o(_p + name, goal, *a, **kw)
+
+            def cv(name, _o=orig_cover, _p=pre):
+                return _o(_p + name)
+
+            c.prove, c.cover = pr, cv
+            try:
+                sub(c, inp)
+            finally:
+                c.prove, c.cover = orig_prove, orig_cover
+
+    return body
+
+
+def _chunks(lst, n):
+    for i in range(0, len(lst), n):
+        yield i // n, lst[i : i + n]
+
+
 def tasks(tier, seed):
     out = {}
     thorough = tier == "thorough"
     rnd = random.Random(seed)
     # --- padding contract: all 64 constant/edge face assignments, several width patterns
     mode_sets = list(itertools.product(("constant", "edge"), repeat=6))
-    width_sets = [(1,), (2,), (10,), MIXED_W] + ([(3,), (20,), (0, 1, 2, 3, 4, 5)] if thorough else [])
-    groups = {}
+    width_sets = [(1,), (10,), MIXED_W] + ([(2,), (3,), (20,), (0, 1, 2, 3, 4, 5)] if thorough else [])
     for wi, w in enumerate(width_sets):
-        for mi, ms in enumerate(mode_sets):
-            groups.setdefault((wi, mi // 8), []).append((ms, w))
-    for (wi, g), lst in groups.items():
-
-        def body(c, inp, lst=lst):
-            for ms, w in lst:
-                pre = "modes=" + "".join(m[0] for m in ms) + ",widths=" + "-".join(map(str, w)) + ":"
-                orig = c.prove
-
-                def pr(name, goal, *a, _o=orig, _p=pre, **kw):
-                    return _o(_p + name, goal, *a, **kw)
-
-                c.prove = pr
-                try:
-                    _padding_task(ms, w, sym_values=[0] * 6)(c, inp)
-                finally:
-                    c.prove = orig
-
-        out[f"padding/w{wi}/g{g}"] = Task(body)
-    out["padding/defaults_single_mode_no_values"] = Task(_padding_task(("edge",), (2,), None))
-    out["padding/single_constant_mode_single_value"] = Task(_padding_task(("constant",), (3,), [0]))
-    # --- Lemma M
+        for g, lst in _chunks(mode_sets, 8):
+            parts = [("modes=" + "".join(m[0] for m in ms) + ",widths=" + "-".join(map(str, w)) + ":", _padding_task(ms, w, sym_values=[0] * 6)) for ms in lst]
+            out[f"padding/w{'-'.join(map(str, w))}/g{g}"] = Task(_grouped(parts))
+    out["padding/defaults"] = Task(_grouped([("modes=e,widths=2,values=None:", _padding_task(("edge",), (2,), None)), ("modes=c,widths=3,values=(v,):", _padding_task(("constant",), (3,), [0]))]))
+    # --- Lemma M (arbitrary padded array), one task per kernel
     for ks in KERNELS_THOROUGH if thorough else KERNELS_QUICK:
         half = [(k - 1) // 2 for k in ks]
         wsets = [tuple(h for h in half for _ in (0, 1)), (max(half) + 1,), (10,)]
         if ks == (3, 3, 3):
             wsets.append((1, 2, 1, 3, 2, 1))
+        parts = []
         for w in dict.fromkeys(wsets):
-            if max(ks) >= 5 and w == (10,) and not thorough and ks != (1, 5, 5):
-                continue
             for kind in ("real", "bool"):
-                if kind == "bool" and not (ks in ((3, 3, 3), (1, 1, 1), (5, 3, 1))):
+                if kind == "bool" and w == (10,):
                     continue
-                out[f"median/lemma/k{'x'.join(map(str, ks))}/w{'-'.join(map(str, w))}/{kind}"] = Task(_median_lemma(ks, w, kind))
+                parts.append((f"widths={'-'.join(map(str, w))},{kind}:", _median_lemma(ks, w, kind)))
+        out[f"median/lemma/k{'x'.join(map(str, ks))}"] = Task(_grouped(parts))
     # --- end to end (no cut), incl. the repository's own configurations
     e2e = [
         ((3, 3, 1), (1,), ("edge",), None, "real"),
@@ -792,15 +809,14 @@ def tasks(tier, seed):
         ((3, 3, 3), (20,), ("edge", "edge", "edge", "edge", "constant", "edge"), (1,), "real"),  # BOTTOM_Z_PADDING_CONFIG_REPEAT
         ((1, 3, 5), (1, 1, 1, 2, 2, 3), ("edge", "constant", "constant", "edge", "edge", "constant"), (0, 1, 1, 0, 0, 1), "bool"),
     ]
-    for i, (ks, w, ms, vs, kind) in enumerate(e2e):
-        out[f"median/end_to_end/{i}"] = Task(_median_end_to_end(ks, w, ms, vs, kind))
-    for r in (1, 3):
-        out[f"median/module_repeats{r}"] = Task(_median_module(r))
+    for g, lst in _chunks(list(enumerate(e2e)), 3):
+        out[f"median/end_to_end/{g}"] = Task(_grouped([(f"cfg{i}:", _median_end_to_end(*cfg)) for i, cfg in lst]))
+    out["median/module"] = Task(_grouped([(f"repeats={r}:", _median_module(r)) for r in (1, 3)]))
     # --- allowed columns (concrete enumeration)
     Lmax, Mmax = (6, 4) if thorough else (5, 4)
     combos = [(L, M, bg, s) for L in range(1, Lmax + 1) for M in range(2, Mmax + 1) for bg in range(M) for s in (False, True) if (M - 1) ** L <= 1100]
-    for i in range(0, len(combos), 24):
-        out[f"allowed_columns/{i // 24:02d}"] = Task(_allowed_task(combos[i : i + 24]))
+    for g, lst in _chunks(combos, 48):
+        out[f"allowed_columns/{g:02d}"] = Task(_allowed_task(lst))
     # --- nearest_index contract
     near = []
     metrics = ["euclidean", "permittivity_differences_plus_average_permittivity"]
@@ -810,20 +826,39 @@ def tasks(tier, seed):
             if M == 2 and single:
                 continue  # identical table
             for metric in metrics:
+                if metric == "euclidean" and len(allowed_columns_spec(L, M, 0, single)) > 16:
+                    continue  # nonlinear terms for every row pair: beyond the per-task budget (listed bound)
                 axes = (0, 1, 2) if (L, M) in ((2, 2), (3, 3)) or thorough else (rnd.randrange(3),)
                 for axis in axes:
                     bgs = range(M) if (L, M) == (2, 3) or thorough else (rnd.randrange(M),)
                     for bg in bgs:
                         near.append((L, M, bg, single, axis, metric))
-    for L, M, bg, single, axis, metric in near:
-        out[f"nearest/L{L}M{M}bg{bg}{'s' if single else 'm'}/axis{axis}/{metric[:4]}"] = Task(_nearest_task(L, M, bg, single, axis, metric))
+    # group light configurations; heavy ones (many rows, nonlinear euclidean terms) get their own task because
+    # the solver context (sqrt monotonicity instances) accumulates inside a task
+    groups, cur, wsum = [], [], 0
+    for cfg in near:
+        L, M, bg, single, axis, metric = cfg
+        wgt = len(allowed_columns_spec(L, M, bg, single)) * (3 if metric == "euclidean" or L == 1 else 1)
+        if cur and wsum + wgt > 24:
+            groups.append(cur)
+            cur, wsum = [], 0
+        cur.append(cfg)
+        wsum += wgt
+    if cur:
+        groups.append(cur)
+    for g, lst in enumerate(groups):
+        parts = [(f"L{L}M{M}bg{bg}{'s' if single else 'm'},axis{axis},{metric[:4]}:", _nearest_task(L, M, bg, single, axis, metric)) for L, M, bg, single, axis, metric in lst]
+        out[f"nearest/{g:02d}"] = Task(_grouped(parts))
     # --- PillarDiscretization wrapper (cut at nearest_index) and end to end
     for axis in (0, 1, 2):
+        parts = []
         for L, M, bg, single in ((3, 2, None, False), (2, 3, 1, True), (3, 3, None, True), (1, 2, 1, False)):
             metric = metrics[(axis + L) % 2]
-            out[f"pillar/wrapper/axis{axis}/L{L}M{M}bg{bg}{'s' if single else 'm'}"] = Task(_pillar_wrapper(L, M, bg, single, axis, metric))
-    for axis, L, M, single, metric in ((2, 2, 2, False, metrics[1]), (0, 3, 2, False, metrics[0]), (1, 2, 3, True, metrics[1]), (2, 1, 3, False, metrics[1])):
-        out[f"pillar/end_to_end/axis{axis}/L{L}M{M}{'s' if single else 'm'}/{metric[:4]}"] = Task(_pillar_end_to_end(L, M, single, axis, metric))
+            parts.append((f"L{L}M{M}bg{bg}{'s' if single else 'm'},{metric[:4]}:", _pillar_wrapper(L, M, bg, single, axis, metric)))
+        out[f"pillar/wrapper/axis{axis}"] = Task(_grouped(parts))
+    ends = [(2, 2, 2, False, metrics[1]), (0, 3, 2, False, metrics[0]), (1, 2, 3, True, metrics[1]), (2, 1, 3, False, metrics[1])]
+    for g, lst in _chunks(ends, 2):
+        out[f"pillar/end_to_end/{g}"] = Task(_grouped([(f"axis{axis},L{L}M{M}{'s' if single else 'm'},{metric[:4]}:", _pillar_end_to_end(L, M, single, axis, metric)) for axis, L, M, single, metric in lst]))
     # --- shim cross-check + bounded real-JAX evidence
     out["shim_crosscheck_and_real_jax_median"] = Task(_shim_and_bounded(seed, 120 if thorough else 40), modules=[])
     out["real_jax_pillars"] = Task(_bounded_pillars(seed, 60 if thorough else 20), modules=[])
@@ -831,17 +866,35 @@ def tasks(tier, seed):
 
 
 def replay(key, obligation, witness):
-    """real functions under real JAX on the witness"""
+    """real functions under real JAX on the witness; when the solver's model lives on a huge grid (array
+    shapes are unconstrained symbols) a seeded search over small inputs of the same configuration is used"""
+    import numpy as np
+
+    from vc.harness import witness_arrays_to_numpy
+
+    w = witness or {}
+    arrs = witness_arrays_to_numpy(w) if "arrays" in w else {}
+    usable = all(a.size > 0 for a in arrs.values()) and any(k in arrs for k in ("arr", "values", "P"))
+    if "arr" in w or key.startswith("allowed_columns") or usable:
+        return _replay_once(key, obligation, w, arrs, None)
+    rng = np.random.default_rng(24)
+    detail = "no replay for this obligation"
+    for t in range(120):
+        ok, detail = _replay_once(key, obligation, w, {}, rng)
+        if ok:
+            return True, f"(seeded search, trial {t}) " + detail
+    return False, "no small failing input found in 120 seeded trials; last: " + detail
+
+
+def _replay_once(key, obligation, w, arrs, rng):
     import importlib
+    import re
 
     import jax.numpy as jnp
     import numpy as np
 
     from fdtdx.core.misc import PaddingConfig, advanced_padding
-    from vc.harness import witness_arrays_to_numpy
 
-    w = witness or {}
-    arrs = witness_arrays_to_numpy(w) if "arrays" in w else {}
     cfg = (w.get("notes") or {}).get("cfg") or {}
     sc = w.get("scalars", {})
     bt = importlib.import_module(BT_MOD)
@@ -853,57 +906,98 @@ def replay(key, obligation, witness):
         exp = _np_median_oracle(a, tuple(w["kernel"]), w["widths"], w["modes"], w["values"])
         return bool((got != exp).any()), f"binary_median_filter on {w['shape']} kernel {w['kernel']}: {int((got != exp).sum())} voxels differ from the majority oracle"
     if key.startswith("padding/"):
-        a = arrs.get("arr")
-        if a is None or a.size == 0 or "modes" not in cfg:
-            return False, "witness incomplete"
-        import re
-
+        modes, widths = cfg.get("modes"), cfg.get("widths")
         m = re.match(r"modes=([ce]{6}),widths=([\d-]+):", obligation)
-        modes = cfg["modes"]
-        widths = cfg["widths"]
         if m:
             modes = [{"c": "constant", "e": "edge"}[ch] for ch in m.group(1)]
             widths = [int(x) for x in m.group(2).split("-")]
-        vals = [float(sc.get(f"val{e}", 0.0)) for e in range(6)]
+        if modes is None:
+            return False, "witness incomplete"
+        a = arrs.get("arr")
+        if a is None:
+            a = rng.normal(size=tuple(int(x) for x in rng.integers(1, 4, size=3)))
+            vals = [float(x) for x in rng.normal(size=6)]
+        else:
+            vals = [float(sc.get(f"val{e}", 0.0)) if isinstance(sc.get(f"val{e}", 0.0), (int, float)) else 0.0 for e in range(6)]
         out, sl = advanced_padding(jnp.asarray(a), PaddingConfig(widths=tuple(widths), modes=tuple(modes), values=tuple(vals)))
         exp = _np_pad_oracle(a, widths, modes, vals)
         out = np.asarray(out)
-        bad = out.shape != exp.shape or bool(np.abs(out - exp).max() > 1e-9)
-        return bad, f"advanced_padding modes={modes} widths={widths} on shape {a.shape}: real result {'differs from' if bad else 'equals'} the index-wise padding"
+        w6 = _expand6(widths)
+        sl_ok = all(s.start == w6[2 * x] and s.stop == w6[2 * x] + a.shape[x] for x, s in enumerate(sl))
+        bad = out.shape != exp.shape or bool(np.abs(out - exp).max() > 1e-6) or not sl_ok
+        return bad, f"advanced_padding modes={modes} widths={widths} on shape {a.shape}: real result {'differs from' if bad else 'equals'} the index-wise padding (slices {'ok' if sl_ok else 'wrong'})"
     if key.startswith("median/lemma") or key.startswith("median/end_to_end"):
-        a = arrs.get("arr")
-        if a is None or a.size == 0 or "kernel" not in cfg:
+        if "kernel" not in cfg:
             return False, "witness incomplete"
         ks = tuple(cfg["kernel"])
         modes = cfg.get("modes", ["edge"])
         values = cfg.get("values")
+        a = arrs.get("arr")
+        if a is None:
+            w6 = _expand6(cfg["widths"])
+            lo = [max(1, ks[x] - w6[2 * x] - w6[2 * x + 1]) for x in range(3)]
+            a = rng.random(tuple(int(lo[x] + rng.integers(0, 4)) for x in range(3))) < rng.choice([0.3, 0.5, 0.7])
         a = (a != 0).astype(np.float32)
         got = np.rint(np.asarray(bt.binary_median_filter(jnp.asarray(a), ks, PaddingConfig(widths=tuple(cfg["widths"]), modes=tuple(modes), values=None if values is None else tuple(values))))).astype(int)
         exp = _np_median_oracle(a, ks, cfg["widths"], modes, values)
-        return bool((got != exp).any()), f"binary_median_filter kernel {ks} widths {cfg['widths']} modes {modes} on shape {a.shape}: {int((got != exp).sum())} voxels differ from the majority oracle"
+        bad = got.shape != exp.shape or bool((got != exp).any())
+        return bad, f"binary_median_filter kernel {ks} widths {cfg['widths']} modes {modes} on shape {a.shape}: {'shape differs' if got.shape != exp.shape else str(int((got != exp).sum())) + ' voxels differ'} from the majority oracle"
+    if key.startswith("median/module"):
+        from fdtdx.objects.device.parameters.discrete import BinaryMedianFilterModule
+
+        r = int(re.search(r"repeats=(\d+)", obligation).group(1)) if re.search(r"repeats=(\d+)", obligation) else 3
+        a = (rng.random((5, 6, 4)) < 0.5).astype(np.float32) if rng is not None else np.zeros((5, 6, 4), np.float32)
+        pc = PaddingConfig(widths=(2,), modes=("edge",))
+        got = np.asarray(BinaryMedianFilterModule(padding_cfg=pc, kernel_sizes=(3, 5, 1), num_repeats=r)({"p": jnp.asarray(a)})["p"])
+        exp = a
+        for _ in range(r):
+            exp = _np_median_oracle(exp, (3, 5, 1), (2,), ("edge",), None).astype(np.float32)
+        return bool(np.abs(got - exp).max() > 1e-6), f"BinaryMedianFilterModule(num_repeats={r}) on a 5x6x4 design: {int((np.abs(got - exp) > 1e-6).sum())} voxels differ from the {r}-fold majority filter"
     if key.startswith("nearest/") or key.startswith("pillar/"):
         if "L" not in cfg:
             return False, "witness incomplete"
         L, M, axis, metric = cfg["L"], cfg["M"], cfg["axis"], cfg["metric"]
+        vals = arrs.get("values", arrs.get("P"))
+        if vals is None:
+            shp = [int(x) for x in rng.integers(1, 4, size=2)]
+            shp.insert(axis, L)
+            vals = rng.uniform(0.0, 1.2, size=shp)
+        if key.startswith("pillar/"):
+            bg = cfg.get("bg")
+            single = cfg["single"]
+            mod, mats, names, perms = _make_pillar_module(L, M, None if bg is None else names_of(M)[bg], single, axis, metric, vals.shape)
+            out = np.rint(np.asarray(mod({"p": jnp.asarray(vals)})["p"])).astype(int)
+            rows = sorted(allowed_columns_spec(L, M, 0 if bg is None else bg, single))
+            inv = [1.0 / p for p in perms]
+            if out.shape != vals.shape:
+                return True, f"PillarDiscretization axis={axis}: output shape {out.shape} != input shape {vals.shape}"
+            Vm, Om = np.moveaxis(vals, axis, -1), np.moveaxis(out, axis, -1)
+            worst, notallowed = 0.0, 0
+            for ij in itertools.product(*[range(x) for x in Vm.shape[:2]]):
+                oc = tuple(int(x) for x in Om[ij])
+                if oc not in rows:
+                    notallowed += 1
+                    continue
+                col = [float(x) for x in Vm[ij]]
+                d = {r: float(_spec_distance(col, [inv[m] for m in r], metric)) for r in rows}
+                worst = max(worst, d[oc] - min(d.values()))
+            return bool(notallowed or worst > 1e-9), f"PillarDiscretization L={L} M={M} axis={axis} bg={bg} single={single} metric={metric} on shape {vals.shape}: {notallowed} columns not allowed, worst excess distance {worst:.3g}"
         ut = importlib.import_module(UT_MOD)
         allowed = np.array(cfg["allowed"], dtype=int)
-        vals = arrs.get("values", arrs.get("P"))
-        if vals is None or vals.size == 0:
-            return False, "witness carries no values"
         av = arrs.get("allowed_values")
-        if av is None or key.startswith("pillar/"):
-            av = np.array([1.0 / p for p in [1.0, 2.0, 4.0, 8.0][:M]])
+        if av is None:
+            av = rng.uniform(0.1, 1.0, size=M)
         idx = np.asarray(ut.nearest_index(values=jnp.asarray(vals), allowed_values=jnp.asarray(av), axis=axis, distance_metric=metric, allowed_indices=jnp.asarray(allowed)))
         Vm = np.moveaxis(vals, axis, -1)
+        if idx.shape != Vm.shape[:2]:
+            return True, f"nearest_index axis={axis}: result shape {idx.shape} for values {vals.shape}"
         worst = 0.0
-        for ij in itertools.product(*[range(s) for s in Vm.shape[:2]]):
+        for ij in itertools.product(*[range(x) for x in Vm.shape[:2]]):
             col = [float(x) for x in Vm[ij]]
             d = [float(_spec_distance(col, [float(av[m]) for m in row], metric)) for row in allowed]
             worst = max(worst, d[int(idx[ij])] - min(d))
-        return worst > 1e-9, f"nearest_index L={L} M={M} axis={axis} metric={metric}: chosen row exceeds the minimal distance by {worst:.3g}"
+        return worst > 1e-9, f"nearest_index L={L} M={M} axis={axis} metric={metric} on shape {vals.shape}: chosen row exceeds the minimal distance by {worst:.3g}"
     if key.startswith("allowed_columns"):
-        import re
-
         m = re.search(r"\[L(\d+)M(\d+)bg(\d+)(single|multi)\]", obligation)
         if not m:
             return False, "obligation does not name a configuration"
